@@ -77,7 +77,18 @@ impl<'t, 'a> LitGen<'t, 'a> {
     fn stmt(&mut self) -> String {
         self.counter += 1;
         let n = self.counter;
-        match self.t.below(26) {
+        match self.t.below(28) {
+            26 => {
+                // a string literal as (or inside) a computed key whose property value is a string literal too
+                let k = self.plant(None, true, false, "computed-key-literal");
+                let v = self.plant(None, true, false, "computed-key-literal-value");
+                format!("const o{n} = {{ [{k}]: {v} }};")
+            }
+            27 => {
+                let k = self.plant(Some(None), true, false, "computed-key-call-argument");
+                let v = self.plant(None, true, false, "computed-key-literal-value");
+                format!("const o{n} = {{ [h({k})]: {v}, plain: 1 }};")
+            }
             22 => {
                 // the same value twice inside one construct
                 let (value, text) = self.lit(true);
